@@ -9,6 +9,9 @@ driver for the datagram-stack model (engine `gram`).
 
 ops:  `t<id>@<dst>` transmit   `m<id>@<dst>` message   `M` serviceTxMsgs
       `P<env>` serviceTxPkts   `O<env>` serviceTxPktsOnce   `A<env>` serviceAllTx   `c` close   `o` reopen
+  rx <op> <op> …                       → receive side, per call `<ok|x<errno>> ; P=<rxPkts> G=<rxMsgs> T=<datagrams taken> o=<0|1>`
+        ops: `r<src>` add a remote   `V<recvs>` serviceReceives   `W<recvs>` serviceReceivesOnce   `K` serviceRxPkts   `c` `o`
+        recvs: comma separated `g<src>:<id>` datagram, `z<src>` zero-length datagram, `n` nothing, <errno>
 env:  comma separated answers of the socket, `k` = ok, a decimal errno = socket.error; may be empty
 events: `s<id>@<dst>` datagram accepted, `f<id>@<dst>!<errno>` send raised, `x<errno>` exception escaped
 -/
@@ -58,6 +61,39 @@ def runShow (v : Variant) : State → List Op → List String
     ((if ev.isEmpty then "-" else " ".intercalate (ev.map showEvent)) ++ " ; " ++ showState s')
       :: runShow v s' ops
 
+/-! receive side -/
+
+def recv? (w : String) : Option Recv :=
+  match w.toList with
+  | ['n'] => some .nothing
+  | 'g' :: r =>
+    match (String.ofList r).splitOn ":" with
+    | [src, i] => do let src ← src.toNat?; let i ← i.toNat?; pure (.dgram ⟨i, src⟩)
+    | _ => none
+  | 'z' :: r => (String.ofList r).toNat?.map .empty
+  | _ => w.toNat?.map .err
+
+def recvs? (s : String) : Option (List Recv) :=
+  if s.isEmpty then some [] else (s.splitOn ",").mapM recv?
+
+def rop? (w : String) : Option ROp :=
+  match w.toList with
+  | ['K'] => some .serviceRxPkts
+  | ['c'] => some .close
+  | ['o'] => some .reopen
+  | 'r' :: r => (String.ofList r).toNat?.map .addRemote
+  | 'V' :: r => (recvs? (String.ofList r)).map .serviceReceives
+  | 'W' :: r => (recvs? (String.ofList r)).map .serviceReceivesOnce
+  | _ => none
+
+def rrunShow : RxState → List ROp → List String
+  | _, [] => []
+  | s, op :: ops =>
+    let (s', e) := rstep s op
+    ((match e with | some n => "x" ++ toString n | none => "ok") ++ " ; P=" ++ showPkts s'.rxPkts ++
+      " G=" ++ showPkts s'.rxMsgs ++ " T=" ++ showPkts s'.taken ++ " o=" ++ (if s'.opened then "1" else "0"))
+      :: rrunShow s' ops
+
 def variant? (s : String) : Option Variant :=
   if s == "asis" then some .asIs else if s == "repaired" then some .repaired else none
 
@@ -67,6 +103,9 @@ def reply (ws : List String) : Option String :=
       let v ← variant? v
       let ops ← ops.mapM op?
       pure (if ops.isEmpty then "-" else " | ".intercalate (runShow v init ops))
+  | "rx" :: ops => do
+      let ops ← ops.mapM rop?
+      pure (if ops.isEmpty then "-" else " | ".intercalate (rrunShow RxState.init ops))
   | "region" :: "D20b" :: ops => do
       let ops ← ops.mapM op?
       pure (toString (onceReorders .repaired init ops))
